@@ -111,6 +111,9 @@ func newRprog(p program) *rprog {
 		switch pl.Kind {
 		case "retry":
 			b := buildRetry(retryCfg{MaxRetries: pl.MaxRetries, Handle: pl.Handle, Abort: pl.Abort, ReturnLast: pl.ReturnLast})
+			if pl.LongDelay {
+				b.WithDelay(time.Hour)
+			}
 			if pl.has(lisSuccess) {
 				b.OnSuccess(rp.attemptEv(i, "retry.success"))
 			}
@@ -279,7 +282,7 @@ func newRprog(p program) *rprog {
 
 // runExec runs execution xi for real. Returns the log, whether it had to be stopped by the run-away guard, and whether a
 // timing disturbance was seen (a short timeout fired although no step blocked, or a non-blocking step saw cancellation).
-func (rp *rprog) runExec(xi int, modelInv int) (log []entry, runaway bool, disturbed bool) {
+func (rp *rprog) runExec(xi int, modelInv int, modelTimeouts int) (log []entry, runaway bool, disturbed bool) {
 	x := rp.prog.Execs[xi]
 	rp.now.Add(x.Advance)
 	rp.curExec.Store(int64(xi))
@@ -344,10 +347,16 @@ func (rp *rprog) runExec(xi int, modelInv int) (log []entry, runaway bool, distu
 		}
 		if st.Block && exec != nil && rp.prog.hasShort {
 			blocked.Add(1)
+			lr0, le0 := exec.LastResult(), exec.LastError()
 			select {
 			case <-exec.Canceled():
 			case <-time.After(20 * time.Second):
 				l.add("inv", "blocking step never saw cancellation")
+			}
+			// what the attempt is shown as the last result must not change under its feet when the Timeout cancels it
+			// (A12: a nil LastError legitimately turns into the context's error)
+			if lr1, le1 := exec.LastResult(), exec.LastError(); lr1 != lr0 || (le0 != nil && le1 != le0) {
+				l.add("stats", fmt.Sprintf("fn#%d LastResult/LastError changed during the attempt: %s -> %s", k, odesc(lr0, le0), odesc(lr1, le1)))
 			}
 		} else if exec != nil && exec.IsCanceled() {
 			sawCancelEarly.Store(true)
@@ -420,7 +429,8 @@ func (rp *rprog) runExec(xi int, modelInv int) (log []entry, runaway bool, distu
 			c.mu.Unlock()
 		}
 	}
-	disturbed = sawCancelEarly.Load() || rp.timeoutsFired.Load() != blocked.Load()
+	disturbed = sawCancelEarly.Load() || int(rp.timeoutsFired.Load()) > modelTimeouts
+	_ = blocked.Load()
 	l.mu.Lock()
 	defer l.mu.Unlock()
 	return l.log, false, disturbed
